@@ -40,7 +40,7 @@ func verifIPCPAny(tag string) (*IPCPStateMachine, *vSent) {
 		negotiated: IPCPNegotiatedOptions{LocalIP: cfg.LocalIP},
 	}
 	m.identifier = ndU8(tag + ".id")
-	m.lastIdentifier = m.identifier
+	m.lastIdentifier = ndU8(tag + ".lastid") // echo, code-reject and terminate packets advance identifier past it
 	m.restartCount = ndInt(tag+".rc", 0, 10)
 	if ipcpWaiting(m.state) {
 		m.startTimer() // representation invariant: a waiting state has its restart timer running
@@ -57,7 +57,9 @@ func VerifC09_IPCPReceive() {
 }
 
 // C11 (one inductive step): from any state satisfying the invariant
-//   Opened => peerAcked && weAcked ; AckRcvd => peerAcked ; AckSent => weAcked
+//
+//	Opened => peerAcked && weAcked ; AckRcvd => peerAcked ; AckSent => weAcked
+//
 // any single event re-establishes it; replies echo identifiers; waiting states keep a timer;
 // a timeout either retransmits (and consumes the restart counter) or gives up.
 func VerifC11_IPCPStep() {
@@ -138,10 +140,11 @@ func VerifC11_IPCPStep() {
 	post := m.state
 	// IPCP acknowledges only the address assigned to the session
 	if acked && pkt != nil {
-		opts, _ := ParseLCPOptions(pkt.Data)
+		opts, wellFormed := verifRefOptions(pkt.Data)
+		vAssert(wellFormed, "Configure-Ack for a request part of whose option list was never examined (an address or MRU may hide there)")
 		for _, o := range opts {
-			if o.Type == IPCPOptIPAddress && len(o.Data) == 4 {
-				vAssert(m.config.PeerIP != nil && net.IP(o.Data).Equal(m.config.PeerIP), "IPCP Configure-Ack for an address that is not the one assigned to the session")
+			if o.Type == IPCPOptIPAddress {
+				vAssert(len(o.Data) == 4 && m.config.PeerIP != nil && net.IP(o.Data).Equal(m.config.PeerIP), "IPCP Configure-Ack for an address that is not the one assigned to the session")
 			}
 		}
 	}
@@ -189,7 +192,7 @@ func verifIPV6CPAny(tag string) (*IPV6CPStateMachine, *vSent) {
 		negotiated: IPV6CPNegotiatedOptions{LocalInterfaceID: cfg.LocalInterfaceID},
 	}
 	m.identifier = ndU8(tag + ".id")
-	m.lastIdentifier = m.identifier
+	m.lastIdentifier = ndU8(tag + ".lastid") // echo, code-reject and terminate packets advance identifier past it
 	m.restartCount = ndInt(tag+".rc", 0, 10)
 	if ipv6cpWaiting(m.state) {
 		m.startTimer() // representation invariant: a waiting state has its restart timer running
@@ -206,7 +209,9 @@ func VerifC09_IPV6CPReceive() {
 }
 
 // C11 (one inductive step): from any state satisfying the invariant
-//   Opened => peerAcked && weAcked ; AckRcvd => peerAcked ; AckSent => weAcked
+//
+//	Opened => peerAcked && weAcked ; AckRcvd => peerAcked ; AckSent => weAcked
+//
 // any single event re-establishes it; replies echo identifiers; waiting states keep a timer;
 // a timeout either retransmits (and consumes the restart counter) or gives up.
 func VerifC11_IPV6CPStep() {
@@ -285,6 +290,10 @@ func VerifC11_IPV6CPStep() {
 		peerAcked = true
 	}
 	post := m.state
+	if acked && pkt != nil {
+		_, wellFormed := verifRefOptions(pkt.Data)
+		vAssert(wellFormed, "Configure-Ack for a request part of whose option list was never examined (an address or MRU may hide there)")
+	}
 
 	vAssert(post != IPV6CPStateOpened || (peerAcked && weAcked), "Opened only with both sides' latest Configure-Request acknowledged")
 	vAssert(post != IPV6CPStateAckRcvd || peerAcked, "Ack-Rcvd only if the peer acked our latest Configure-Request")
